@@ -22,7 +22,8 @@ def walk_tree(root):
         for n in sorted(dns + fns):
             p = os.path.join(dp, n)
             st = os.lstat(p)
-            e = {"loc": loc_of(p), "mode": stat.S_IMODE(st.st_mode), "mtime": [(int(st.st_mtime) >> 16) & 0xFFFF, int(st.st_mtime) & 0xFFFF]}
+            e = {"loc": loc_of(p), "mode": stat.S_IMODE(st.st_mode), "mtime": [(int(st.st_mtime) >> 16) & 0xFFFF, int(st.st_mtime) & 0xFFFF],
+                 "own": [st.st_uid, st.st_gid]}
             if stat.S_ISLNK(st.st_mode):
                 t = os.readlink(p)
                 e.update(ty="link", t=S2.P(t), traw=t.hex(), size=0, crc=0)
